@@ -202,6 +202,64 @@ def _escaped(e):
     return 'baseOther'
 
 
+def describe_exc(e):
+    """What left, on the wire form of the model's `Raised`."""
+    k = _escaped(e)
+    if k == 'error':
+        return {'kind': 'error', 'ty': type(e).__name__, 'msg': str(e)}
+    if k == 'baseOther':
+        return {'kind': 'baseOther', 'ty': type(e).__name__, 'msg': str(e)}
+    if k == 'systemExit':
+        c = e.code
+        if c is None or (isinstance(c, int) and not isinstance(c, bool)):
+            return {'kind': 'systemExit', 'code': c}
+        if isinstance(c, bool):
+            return {'kind': 'systemExit', 'code': int(c)}
+        return {'kind': 'systemExit', 'code': {'text': str(c)}}
+    return {'kind': k}
+
+
+def run_step_groups_obs(mains, success, failure):
+    """The real StepsRunner.run_step_groups / run_step_group / run_failure_step_group on a pipeline body whose
+    groups' step lists end as scripted (`run_pipeline_steps` of that one instance raises what the script says):
+    mains: [raised…]; success / failure: raised, None (no group given) or 'missing' (a name the pipeline lacks).
+    -> what leaves run_step_groups, and the groups whose steps were started, in order."""
+    from pypyr.stepsrunner import StepsRunner
+    from pypyr.context import Context
+    body, script, names = {}, {}, []
+    for i, r in enumerate(mains):
+        n = f'g{i}'
+        body[n], script[n] = [n], r
+        names.append(n)
+    args = {}
+    for role, r in (('success', success), ('failure', failure)):
+        if r is None:
+            args[role] = None
+        elif r == 'missing':
+            args[role] = f'no-such-{role}'
+        else:
+            body[role], script[role] = [role], r
+            args[role] = role
+    sr = StepsRunner(body, Context())
+    started = []
+
+    def run_pipeline_steps(steps):
+        if steps is None:
+            return
+        n = steps[0]
+        started.append(n)
+        exc = make_exc(script[n])
+        if exc is not None:
+            raise exc
+    sr.run_pipeline_steps = run_pipeline_steps
+    try:
+        sr.run_step_groups(groups=names, success_group=args['success'], failure_group=args['failure'])
+        leaves = {'kind': 'nothing'}
+    except BaseException as e:  # noqa: the observation is what left, whatever it is
+        leaves = describe_exc(e)
+    return {'leaves': leaves, 'started': started}
+
+
 def _main_obs(argv, out, err, reached=None):
     """Call cli.main(argv) and describe how it ended, in the vocabulary of the model's `Outcome`."""
     import pypyr.cli
